@@ -490,21 +490,46 @@ func (P *Prog) checkSegmentSource(r *Result) {
 						problems = append(problems, "the path segment is not the key returned by the same GetByField call that produced the field's data")
 					}
 				} else {
-					// values: the loop key and/or the zog tag lookup result
+					// values: the loop key and/or the zog tag lookup result (also as the returns of a helper such as
+					// `validateKey(field, key)`, read with its parameters bound to the call's arguments)
 					okKey, okTag := false, false
-					for _, v := range vals {
+					var judge func(v ssa.Value, depth int)
+					judge = func(v ssa.Value, depth int) {
 						if valueDerivesFrom(v, l.key, 8) {
 							okKey = true
 						}
-						if ex, ok := v.(*ssa.Extract); ok && ex.Index == 0 {
+						if ex, ok := cv(v).(*ssa.Extract); ok && ex.Index == 0 {
 							if call, ok := ex.Tuple.(*ssa.Call); ok {
 								if ci2 := callOf(call); ci2.static != nil && ci2.static.Name() == "Lookup" && len(call.Call.Args) == 2 {
-									if s, ok := constString(call.Call.Args[1]); ok && s == "zog" {
+									if s, ok := constString(cv(call.Call.Args[1])); ok && s == "zog" {
 										okTag = true
 									}
 								}
 							}
 						}
+						if c2, ok := cv(v).(*ssa.Call); ok && depth < 2 {
+							if callee := callOf(c2).static; formulaHelper(callee) {
+								saved := substEnv
+								substEnv = map[ssa.Value]ssa.Value{}
+								for k, v2 := range saved {
+									substEnv[k] = v2
+								}
+								for k, prm := range callee.Params {
+									if k < len(c2.Call.Args) {
+										substEnv[prm] = c2.Call.Args[k]
+									}
+								}
+								eachInstr(callee, func(_ *ssa.BasicBlock, _ int, in3 ssa.Instruction) {
+									if rt, ok := in3.(*ssa.Return); ok && len(rt.Results) == 1 {
+										judge(rt.Results[0], depth+1)
+									}
+								})
+								substEnv = saved
+							}
+						}
+					}
+					for _, v := range vals {
+						judge(v, 0)
 					}
 					if !okKey || !okTag {
 						problems = append(problems, "in Validate the path segment is not `zog` tag, else schema key")
